@@ -93,8 +93,12 @@ ORDERS["rchrono"] = list(reversed(ORDERS["chrono"]))
 SMALL = [(t, x, z) for t in (2, 6, 11) for x in (4.0, 12.0, 15.0, 19.0, alpha.NAN) for z in (5.0, alpha.NAN)]   # (12 / 19: inside a valid span, outside a narrower fail span)
 
 
+SPELLINGS = {"2020-2-29": "2020-02-29T00:00:00", "12/31/2020 12:00": "2020-12-31T12:00:00", "December 31, 2020 12:00": "2020-12-31T12:00:00",
+             "2019-12-30": "2019-12-30T00:00:00", "1/2/2020": "2020-01-02T00:00:00"}
+
+
 def _dt(s):
-    return dt.datetime.fromisoformat(s)
+    return dt.datetime.fromisoformat(SPELLINGS.get(s, s))
 
 
 def ref_members(members):
@@ -156,6 +160,18 @@ def check_case(case):
     if isinstance(cfg, alpha.Raised):
         out = cfg
     else:
+        if case.get("grow") is not None and case.get("cfg") == "object":
+            # the configuration object is used with its first members only, then the remaining members are added to the
+            # SAME object and it is used again: the second run must see all of them
+            from ioos_qc.qartod import ClimatologyConfig
+
+            k = case["grow"]
+            cfg = ClimatologyConfig()
+            for m in build_config(members[:k], "dicts"):
+                cfg.add(**m)
+            alpha.call(qartod.climatology_test, cfg, alpha.nd(x), tin, zin)
+            for m in build_config(members[k:], "dicts"):
+                cfg.add(**m)
         out = alpha.call(qartod.climatology_test, cfg, alpha.nd(x), tin, zin)
         if case.get("twice") and not isinstance(out, alpha.Raised):
             # the SAME configuration object is used again (a second observation run with one config)
@@ -185,6 +201,7 @@ def tasks(tier):
     for i in range(len(MENU)):
         ts.append(("lists2", i, tier))
     ts.append(("xyx",))
+    ts.append(("grow",))
     ts.append(("manymembers",))
     if tier == "thorough":
         for i in range(len(SUBMENU)):
@@ -231,6 +248,26 @@ def run_task(task, acc):
                     yield dict(members=members, order=order)
                 yield dict(members=members, order="stride", z="masked")
                 yield dict(members=list(reversed(members)), order="stride")
+        run_cases(acc, gen(), check_case)
+    elif kind == "grow":
+        def gen():
+            plain = [m for m in MENU if "zspan" not in m][::7]
+            deep = [m for m in MENU if "zspan" in m][::5]
+            for a in plain:
+                for b in deep:
+                    yield dict(members=[a, b], order="stride", cfg="object", grow=1)
+                    yield dict(members=[b, a], order="stride", cfg="object", grow=1)
+                    yield dict(members=[a, b, a], order="stride", cfg="object", grow=2)
+                    yield dict(members=[a, b], order="stride", cfg="object", grow=0)
+            # absolute bounds spelled in other ways pandas accepts (unpadded, US style, month names), in both orders
+            for tspan in (["2020-2-29", "12/31/2020 12:00"], ["12/31/2020 12:00", "2020-2-29"], ["2020-2-29", "December 31, 2020 12:00"], ["2019-12-30", "1/2/2020"], ["1/2/2020", "2019-12-30"]):
+                for vs_ in VALSETS[:3]:
+                    for zs in ZSPANS[:2]:
+                        m = dict(tspan=list(tspan), **vs_)
+                        if zs is not None:
+                            m["zspan"] = list(zs)
+                        yield dict(members=[m], order="stride")
+                        yield dict(members=[MENU[3], m], order="chrono", cfg="object")
         run_cases(acc, gen(), check_case)
     elif kind == "xyx":
         # three members whose time kinds interleave (X, Y, X) with different verdicts: configuration order must win
